@@ -64,7 +64,7 @@ func HarnessC11() {
 		"/u/only2.tpl": "2" + mX2,
 	}}
 	set := NewSet("verif", l1, l2)
-	form := verifChoice(17)
+	form := verifChoice(24)
 	verifObserve("form", form)
 	var src, want string
 	var fetched []string // names expected in the union of both loaders' Get logs
@@ -151,6 +151,40 @@ func HarnessC11() {
 		src = "{% ssi \"raw.txt\" %}"
 		want = mRaw + "{{ not parsed }}"
 		fetched = []string{"/t/raw.txt"}
+	case 17: // a missing name is an error for every composing tag
+		src = "{% extends \"nope.tpl\" %}"
+		wantErr = true
+		fetched = []string{"/t/nope.tpl"}
+	case 18:
+		src = "{% import \"nope.tpl\" m %}"
+		wantErr = true
+		fetched = []string{"/t/nope.tpl"}
+	case 19:
+		src = "{% ssi \"nope.tpl\" parsed %}"
+		wantErr = true
+		fetched = []string{"/t/nope.tpl"}
+	case 20: // (a plain ssi must not fall back to the real file system when no loader has the name)
+		src = "{% ssi \"nope.txt\" %}"
+		wantErr = true
+		fetched = []string{"/t/nope.txt"}
+	case 21: // if_exists is about the file it names: a missing name INSIDE an existing file is still an error
+		l1.files["/t/has.tpl"] = "[" + mA + "{% include \"nope.tpl\" %}]"
+		src = "A{% include \"has.tpl\" if_exists %}B"
+		wantErr = true
+		fetched = []string{"/t/has.tpl", "/t/nope.tpl"}
+	case 22: // the same at execution time
+		l1.files["/t/has.tpl"] = "[" + mA + "{% include \"nope.tpl\" %}]"
+		src = "A{% include has if_exists %}B"
+		ctx["has"] = "has.tpl"
+		execErr = true
+		fetched = []string{"/t/has.tpl", "/t/nope.tpl"}
+	case 23: // a computed relative name inside a child's block is relative to the CHILD, like a literal one
+		l1.files["/t/sub/child.tpl"] = "{% extends \"../base.tpl\" %}{% block k %}{% include relb %}|{% include \"b.tpl\" %}{% endblock %}"
+		l1.files["/t/b.tpl"] = "WRONG"
+		ctx["relb"] = "b.tpl"
+		src = "{% include \"sub/child.tpl\" %}"
+		want = mBase + mB + "[" + V + W + "]|" + mB + "[" + V + W + "]"
+		fetched = []string{"/t/sub/child.tpl", "/t/base.tpl", "/t/sub/b.tpl"}
 	default: // nothing referenced: nothing fetched
 		src = "{{ v }}{# {% include \"sub/a.tpl\" %} #}{% comment %}{% include \"x.tpl\" %}{% endcomment %}"
 		want = V
